@@ -123,7 +123,7 @@ func (vc *VC) havocAll(s *State) *State {
 	// the allocation frontier only grows
 	a0 := s.get("$alloc", SBV64)
 	a1 := n.get("$alloc", SBV64)
-	vc.assume(ule(a0, a1))
+	vc.assume(mkAnd(ule(a0, a1), ult(a1, bvLit(64, 1<<60))))
 	return n
 }
 
@@ -133,7 +133,7 @@ func (vc *VC) havocSome(s *State, mods map[string]bool) *State {
 	if mods["$alloc"] {
 		a0 := s.get("$alloc", SBV64)
 		a1 := n.get("$alloc", SBV64)
-		vc.assume(ule(a0, a1))
+		vc.assume(mkAnd(ule(a0, a1), ult(a1, bvLit(64, 1<<60))))
 	}
 	return n
 }
